@@ -20,11 +20,17 @@ def main(pid, m):
     dst = f"/verif/seeded/{pid}/{m}"
     os.makedirs(dst + "/demo", exist_ok=True)
     shutil.copy(src + "/patch.diff", dst + "/patch.diff")
+    own_run = pid not in TABLE  # later batches: the sub-agent was asked for run.sh <worktree> itself
     for f in os.listdir(src + "/demo"):
-        if f == "run.sh":
+        if f == "run.sh" and not own_run:
             continue
         shutil.copy(os.path.join(src, "demo", f), os.path.join(dst, "demo", f))
     meta = json.load(open(src + "/meta.json"))
+    json.dump(meta, open(dst + "/agent_meta.json", "w"), indent=1)
+    if own_run:
+        os.chmod(dst + "/demo/run.sh", 0o755)
+        print("staged", dst, "(agent's run.sh)")
+        return
     install, test = TABLE[pid]
     install = install.replace("{m}", m)
     if isinstance(test, dict):
